@@ -17,7 +17,7 @@ from .. import wireshape as W
 from ..model import unparse, walk_body_shallow
 from .c02 import magic_arms, wrapper_offset_rule
 from .c04 import KCQ, diff_terms, tmatch
-from .util import call_name, call_recv, calls_in, need, norm, where
+from .util import const_value, call_name, call_recv, calls_in, need, norm, where
 
 TECHNIQUE = "wire-grammar extraction of decoders vs hand-transcribed schema with leaf->struct-attribute flow; unpack-shape " \
             "check; encoder/decoder grammar symmetry"
@@ -161,10 +161,10 @@ def run(ctx):
     import struct
     for wname, rname, size in (("write_short_bytes", "read_short_bytes", 2), ("write_int_string", "read_int_string", 4)):
         wf, rf = ctx.func("_util:" + wname), ctx.func("_util:" + rname)
-        wfm = {c.args[0].value for c in calls_in(wf, "pack") if isinstance(c.args[0], ast.Constant)}
+        wfm = {const_value(prog, wf, c.args[0]) for c in calls_in(wf, "pack") if c.args} - {None}
         if wname == "write_short_bytes":
             wfm |= {">h"} if "_NULL_SHORT_STRING" in unparse(wf.node) else set()
-        rfm = {c.args[0].value for c in calls_in(rf, "unpack") if isinstance(c.args[0], ast.Constant)}
+        rfm = {const_value(prog, rf, c.args[0]) for c in calls_in(rf, "unpack") if c.args} - {None}
         null_r = any(isinstance(x, ast.Compare) and norm(x).endswith("== -1") for x in ast.walk(rf.node))
         r.check(len(wfm) == 1 and wfm == rfm and struct.calcsize(list(wfm)[0]) == size and null_r, "_util:%s/%s#symmetry" % (wname, rname),
                 "length prefix written as %s, read as %s; null marker -1 recognised=%s" % (sorted(wfm), sorted(rfm), null_r), where(rf, rf.node))
